@@ -8,7 +8,7 @@ Kani on the real sophia_api / sophia_rio (add-only overlay):
    MutableGraph::insert_all / remove_all against a store that fails at item k ("index full") with exact counts.
 """
 import json
-from engine import core, overlay, native, kani_unit
+from engine import core, overlay, native, kani_unit, verus
 from engine.kani_unit import H
 from contracts.source import gen
 
@@ -36,6 +36,12 @@ def run(rep):
                       "StrictRioTripleSource / StrictRioQuadSource / GeneralizedRioSource::try_for_some_item (rio/src/parser.rs)"]
     rep.assume("Kani/CBMC; harness error types ErrA/ErrB, symbolic predicate x&mask!=0 and map x^k stand for arbitrary pure closures over u8 items")
     rep.assume("Rio parsers stop at the first callback error and report their own errors through From (the stub does; real rio_turtle is not run)")
+    # whole-stream statement: induction over the stream from the step contract (Verus, spec level, unbounded)
+    lem = verus.run_verus(ID, "prefix_lemma", open(core.VERIF + "/contracts/source/prefix_lemma.rs").read())
+    lfailed = verus.record(rep, lem, ["lemma_prefix", "witness_lemma_prefix"], "verus:prefix::", "")
+    for f in lfailed:
+        rep.violation("verus:prefix::" + f, verus.blocks_for(lem, [f]), witness=None, replay_text="spec-level lemma; no input involved", confirmed=False)
+    rep.assume("lemma_prefix is a lemma over the step contract's specification (no extracted code): it links 'every step obeys the step contract' to 'the driver consumes exactly the accepted prefix'; that the real driver loop IS that iteration is checked by the bounded K=3 harnesses")
     failed = []
     with overlay.Scratch(ID) as s:
         s.append("api/src/source.rs", text.replace("mod verif_c15 {", "pub(crate) mod verif_c15 {")
@@ -52,7 +58,7 @@ def run(rep):
                           confirmed=confirmed)
     rep.not_covered += ["the Triple/Quad wrapper sources (forwarding only)", "serializer sinks with a failing writer", "collect_triples / collect_quads",
                         "streams longer than 3 items for the whole-stream drivers (the step contract is unbounded)"]
-    rep.notes.append("the whole-stream property follows from the step contract by induction on the stream (not mechanised); bounded runs of the real loop drivers stand in")
+    rep.notes.append("the whole-stream property follows from the step contract by induction on the stream (lemma_prefix, Verus); bounded runs of the real loop drivers link the lemma's `drive` to the real `while try_for_some_item(..)? {}`")
 
 
 def replay(path):
